@@ -107,6 +107,23 @@ def run(prop: str, tier: str, seed: int) -> int:
                       "decodes": [{"x": x, "plan": decode(x, days, n, rng)}]})
         rep.family("tight-day-budget", 1, 1)
         rep.nontrivial += 1
+    # many teams: the shipped instances have up to 40 teams; word sizes (32, 64) and the int8 edge of team ids
+    big_n = {"quick": [31, 32, 33, 34, 40, 64, 65], "thorough": [31, 32, 33, 34, 36, 40, 63, 64, 65, 66, 127, 128, 129]}[tier]
+    for n in big_n:
+        for v in range(2 if n <= 66 else 1):
+            bp = [small(x) for x in ss(n, 1).blueprint]
+            days = (n - 1) if n % 2 == 0 else n
+            x = bp[:]
+            rng.shuffle(x)
+            if v == 1:          # games of the highest-numbered teams first
+                x.sort(reverse=True)
+                for _ in range(n):
+                    i, j = rng.randrange(len(x)), rng.randrange(len(x))
+                    x[i], x[j] = x[j], x[i]
+            cases.append({"id": f"many-teams-{n}-{v}", "n": n, "rounds": 1, "days": days, "bp": bp if v == 0 else [],
+                          "decodes": [{"x": x, "plan": decode(x, days, n, rng)}]})
+            rep.family("many-teams(31..129)", 1, 1)
+            rep.nontrivial += 1
     vs = core.validate("ttp/Trace_TTP", cases, cfg_text=_trace_cfg(), shards=14)
     core.classify(rep, vs, {c["id"]: c for c in cases}, family="recorded")
     rep.traces += sum(len(c["decodes"]) + (1 if c["bp"] else 0) for c in cases)
